@@ -24,7 +24,9 @@ from .seq_common import SeqSystem
 
 LEVEL = "model_checking"
 
-FLAVOURS = [dict(is_async=a, active_low=l) for a in (False, True) for l in (False, True)]
+FLAVOURS = [dict(is_async=a, active_low=l, step_cond=False) for a in (False, True) for l in (False, True)]
+# step_cond gates the body like a clock enable; reset must still act at every active edge / instant
+FLAVOURS += [dict(is_async=False, active_low=False, step_cond=True), dict(is_async=True, active_low=True, step_cond=True)]
 
 
 class ResetMixin:
@@ -32,9 +34,11 @@ class ResetMixin:
 
     def init_reset(self, inputs):
         rs = self.reset
-        self.menu = [("C", i, r) for i in inputs for r in (0, 1)]
+        ens = (1, 0) if rs.get("step_cond") else (1,)
+        self.menu = [("C", i, r, en) for i in inputs for r in (0, 1) for en in ens]
         if rs["is_async"]:
             self.menu += [("R", i) for i in inputs[:2]]
+        self.sid_en_ = self.sim.ports["en"][0] if rs.get("step_cond") else None
 
     def set_rst(self, active):
         self.sim.N[self.sid_rst_] = self.rst_on if active else 1 - self.rst_on
@@ -55,6 +59,9 @@ class ResetMixin:
             sim.settle()
             return self.compare_all(inp, "after asynchronous reset pulse")
         r = ev[2]
+        en = ev[3]
+        if self.sid_en_ is not None:
+            sim.N[self.sid_en_] = en
         self.set_rst(bool(r))
         sim.settle()
         if r and is_async:
@@ -68,7 +75,7 @@ class ResetMixin:
         sim.settle()
         if r:
             self.ref.do_reset()
-        else:
+        elif en:
             self.ref.step(inp)
         if sim.A:
             a = sim.A[0]
@@ -118,9 +125,9 @@ def make_system(kind, d, prog, flat, flavour, on_reset):
     """inputs (incl. an inactive reset) are driven from time 0: an undefined reset input at power-up is not part of the property"""
     rst_off = 1 if flavour["active_low"] else 0
     if kind == "coro":
-        sim = d.sim(init=dict(clk=0, rst=rst_off, i0=0, i1=0))
+        sim = d.sim(init=dict(clk=0, rst=rst_off, i0=0, i1=0, **({"en": 1} if flavour.get("step_cond") else {})))
         return ResetCoro(sim, coro.RefMachine(flat, c04=True, on_reset=on_reset), flavour)
-    sim = d.sim(init=dict(clk=0, rst=rst_off, a=0, b=0, c=0))
+    sim = d.sim(init=dict(clk=0, rst=rst_off, a=0, b=0, c=0, **({"en": 1} if flavour.get("step_cond") else {})))
     return ResetSeq(sim, seqbody.Ref(prog, c04=True, on_reset=on_reset), flavour)
 
 
@@ -189,7 +196,16 @@ def family(run):
         extra = list(seqbody.programs(3))
         run.rng.shuffle(extra)
         sprogs += extra[:100]
-    for fi in range(4):
+    for fi in range(len(FLAVOURS)):
+        if fi >= 4:
+            # step_cond flavours: size-1/2 programs only
+            cp = [p for p in cprogs if len(repr(p)) < 60]
+            sp = [p for p in sprogs if len(repr(p)) < 40]
+            for p in cp:
+                yield ("coro", p, fi, (len(repr(p)) + fi) % 2 == 0)
+            for p in sp:
+                yield ("seq", p, fi, (len(repr(p)) + fi) % 2 == 0)
+            continue
         for p in cprogs:
             yield ("coro", p, fi, (len(repr(p)) + fi) % 2 == 0)
         for p in sprogs:
@@ -245,7 +261,7 @@ def main(run: Run):
 
 def flavour_name(fi):
     f = FLAVOURS[fi]
-    return ("async" if f["is_async"] else "sync") + ("-low" if f["active_low"] else "-high")
+    return ("async" if f["is_async"] else "sync") + ("-low" if f["active_low"] else "-high") + ("-stepcond" if f.get("step_cond") else "")
 
 
 def replay(run: Run, data):
